@@ -316,7 +316,7 @@ def run_shard(sh):
     for afi in (1, 2, 25, 16388, 65535):
         for safi in range(sh['part'], 256, sh['nparts']):
             for tc in (5, 128):
-                for r in (0, 1):
+                for r in (0, 1, 2, 3, 127, 255):      # the reserved octet (RFC 2918: ignored by the receiver; RFC 7313 subtypes 1, 2)
                     res['evaluations'] += 1
                     res['counters']['route_refresh_cases'] += 1
                     ref = refenc.route_refresh(afi, safi, r, tc)
